@@ -128,7 +128,7 @@ def gen_which(rng, n):
 
 def gen_pool(rng, max_dice=4, max_faces=4, frac_p=0.1, styles=("unit", "small", "small", "pos", "pos", "big")):
     """a list of raw dice (histogram item lists); shapes: homogeneous, groups, proportional twins, mixed"""
-    shape = rng.choice(["hom", "hom", "groups", "twins", "mixed", "mixed"])
+    shape = rng.choice(["hom", "hom", "groups", "twins", "mixed", "mixed", "nested"])
     nd = rng.randint(1, max_dice)
 
     def die():
@@ -142,6 +142,16 @@ def gen_pool(rng, max_dice=4, max_faces=4, frac_p=0.1, styles=("unit", "small", 
             h = die()
             dice += [h] * rng.randint(1, 3)
         dice = dice[:max(nd, 2)]
+    elif shape == "nested":
+        # a group of like WIDE dice next to one or two narrow dice whose faces lie strictly inside the wide range (the
+        # die with the smallest lowest face also has the largest highest face), constants included
+        lo = rng.randint(-3, 1)
+        wide = [[gens.q(v), rng.choice([1, 1, 2])] for v in range(lo, lo + rng.randint(4, 6))]
+        inner = sorted(rng.sample(range(lo + 1, lo + len(wide) - 1), rng.randint(1, 2)))
+        narrow = [[gens.q(v), rng.choice([1, 2])] for v in inner]
+        dice = [wide] * rng.randint(2, max(2, min(3, max_dice - 1))) + [narrow]
+        if rng.random() < 0.4:
+            dice.append([[gens.q(rng.choice(inner)), rng.choice([1, 3])]])
     elif shape == "twins":
         h = die()
         k = rng.choice([2, 3])
